@@ -401,3 +401,64 @@ mod tests {
         assert_eq!(answer.txt.count(), 0);
     }
 }
+
+/// Verification hooks (add-only; compiled only with the `verif` feature): direct access to the
+/// name parser of the `domain` crate as this module uses it, to the private `MdnsTxt` constructor
+/// and to `build_query` with labels given at run time.
+#[cfg(feature = "verif")]
+pub mod verif {
+    use domain::base::iana::Rtype;
+    use domain::base::name::ToLabelIter;
+    use domain::base::wire::ParseError;
+    use domain::base::ParsedName;
+    use domain::dep::octseq::Parser;
+
+    use crate::error::Error;
+    use crate::transport::network::mdns::builtin::types::NameSlice;
+
+    use super::MdnsTxt;
+
+    /// `ParsedName::parse` with a parser over `data[pos..end]` (same octets, so compression pointers
+    /// index into `data`). Calls `f` for every non-root label; answers (position after the name,
+    /// uncompressed length, `is_compressed`).
+    pub fn parse_name(
+        data: &[u8],
+        pos: usize,
+        end: usize,
+        f: &mut dyn FnMut(&[u8]),
+    ) -> Result<(usize, u16, bool), ParseError> {
+        let mut parser = Parser::try_with_range(data, pos..end).ok_or(ParseError::ShortInput)?;
+        let name = ParsedName::parse_ref(&mut parser)?;
+        for label in name.iter() {
+            if !label.is_root() {
+                f(label.as_slice());
+            }
+        }
+        Ok((parser.pos(), name.compose_len(), name.is_compressed()))
+    }
+
+    /// `ParsedName::skip` with a parser over `data[pos..end]`; answers the position after the name.
+    pub fn skip_name(data: &[u8], pos: usize, end: usize) -> Result<usize, ParseError> {
+        let mut parser = Parser::try_with_range(data, pos..end).ok_or(ParseError::ShortInput)?;
+        ParsedName::skip(&mut parser)?;
+        Ok(parser.pos())
+    }
+
+    /// The TXT iterator over raw TXT record data.
+    pub fn txt(data: &[u8]) -> MdnsTxt<'_> {
+        MdnsTxt::new(data)
+    }
+
+    /// `build_query` for a name of up to five labels.
+    pub fn build_query(labels: &[&str], rtype: u16, buf: &mut [u8]) -> Result<usize, Error> {
+        let rtype = Rtype::from_int(rtype);
+        match *labels {
+            [] => super::build_query(NameSlice::new([]), rtype, buf),
+            [a] => super::build_query(NameSlice::new([a]), rtype, buf),
+            [a, b] => super::build_query(NameSlice::new([a, b]), rtype, buf),
+            [a, b, c] => super::build_query(NameSlice::new([a, b, c]), rtype, buf),
+            [a, b, c, d] => super::build_query(NameSlice::new([a, b, c, d]), rtype, buf),
+            [a, b, c, d, e, ..] => super::build_query(NameSlice::new([a, b, c, d, e]), rtype, buf),
+        }
+    }
+}
